@@ -14,9 +14,9 @@ RULE = ("valid programs with nested blocks (if arm, for body, scan arm, depth 0-
         "(strict: the failing statement; lazy: it or an enclosing one; conflicts: both statements); the pretty rendering must show "
         "the cited lines; non-trivial = the injected fault was reached")
 
-FAULTS = ["type", "unknown-fn", "conflict", "dup-scoped", "undef-edge", "type-attr-value", "edge-conflict-fanout", "edge-conflict", "bad-scope", "bad-scope-read"]
+FAULTS = ["type", "unknown-fn", "conflict", "dup-scoped", "undef-edge", "type-attr-value", "edge-conflict-fanout", "edge-conflict", "bad-scope", "bad-scope-read", "bad-let-read", "bad-var-read-twice"]
 # faults that need several matches / stanzas (built as whole files)
-FILE_FAULTS = ["self-conflict-shared-node", "self-dup-scoped-shared", "conflict-across-stanzas"]
+FILE_FAULTS = ["self-conflict-shared-node", "self-dup-scoped-shared", "conflict-across-stanzas", "bad-scoped-value-read-elsewhere"]
 
 
 def fault_stmts(kind, cap):
@@ -36,6 +36,11 @@ def fault_stmts(kind, cap):
         return [A.edge(A.var("n"), A.var("n")), A.attre(A.var("n"), A.var("n"), A.attr("ek", A.integer(1))), A.attre(A.var("n"), A.var("n"), A.attr("ek", A.integer(2)))]
     if kind == "undef-edge":
         return [A.attre(A.var("n"), A.var("n"), A.attr("w", A.integer(1)))]
+    if kind == "bad-let-read":       # the failing value belongs to a `let`; another statement reads the variable
+        return [A.let(A.var("bl"), A.call("plus", A.string("x"), A.integer(1))), A.node(A.var("rd")), A.attrn(A.var("rd"), A.attr("v", A.var("bl")))]
+    if kind == "bad-var-read-twice":
+        return [A.let(A.var("bl"), A.lst(A.call("no-such-function"))), A.node(A.var("rd")), A.edge(A.var("rd"), A.var("n")),
+                A.attre(A.var("rd"), A.var("n"), A.attr("v", A.var("bl"))), A.attrn(A.var("rd"), A.attr("w", A.var("bl")))]
     if kind == "bad-scope":          # a scoped variable on something that is not a syntax node, never read
         return [A.let(A.svar(A.var("n"), "onnode"), A.integer(1))]
     if kind == "bad-scope-read":     # the same, read by a later statement
@@ -120,6 +125,11 @@ def make_cases(tier):
             elif fk == "self-dup-scoped-shared":
                 prog = A.file([A.stanza("(module) @m ", [A.let(A.svar(A.cap("m"), "ref"), A.cap("m"))]),
                                A.stanza("(identifier) @id ", [A.let(A.svar(A.svar(A.cap("id"), "ref"), "dupe"), A.call("source-text", A.cap("id")))])], inherit=["ref"])
+            elif fk == "bad-scoped-value-read-elsewhere":
+                # the failing value is defined per identifier; the module's stanza reads it through a comprehension-free path
+                prog = A.file([A.stanza("(identifier) @id ", [A.let(A.svar(A.cap("id"), "name"), A.call("plus", A.call("source-text", A.cap("id")), A.integer(1)))]),
+                               A.stanza("(module (_)* @xs) @m ", [A.node(A.svar(A.cap("m"), "n")), A.forin("x", A.cap("xs"), [A.let(A.var("keep"), A.var("x"))])]),
+                               A.stanza("(identifier) @id ", [A.node(A.var("k")), A.attrn(A.var("k"), A.attr("nm", A.svar(A.cap("id"), "name")))])])
             else:
                 prog = A.file([A.stanza("(module) @m ", [A.node(A.svar(A.cap("m"), "shared")), A.attrn(A.svar(A.cap("m"), "shared"), A.attr("who", A.string("module")))]),
                                A.stanza("(identifier) @id ", [A.attrn(A.svar(A.cap("id"), "shared"), A.attr("who", A.call("source-text", A.cap("id"))))])], inherit=["shared"])
@@ -184,6 +194,10 @@ def run(tier):
             for sl in cited:
                 if sl not in adm:
                     problems.append("statement cited at %s is neither the failing statement nor one enclosing it (admissible: %s)" % (sl, adm))
+            # the innermost statement context names the statement whose evaluation failed (for a value that is forced later, the
+            # statement that defined it - not the one that happened to read it)
+            if sorted(cited) != sorted(x["sl"] for x in spec_ctx["stmts"]) and not problems:
+                problems.append("failing statement cited at %s, the failing statement is at %s" % (cited, [x["sl"] for x in spec_ctx["stmts"]]))
             if len(spec_ctx["stmts"]) == 2:
                 stats["two_statement_contexts"] += 1
                 if sorted(cited) != sorted(s["sl"] for s in spec_ctx["stmts"]):
